@@ -268,6 +268,9 @@ def normalize(model):
     nsw = lower_switches(model)
     if nsw:
         notes.append("%d switch statement(s) lowered to if / else-if chains" % nsw)
+    ncg = continue_guards_to_blocks(model)
+    if ncg:
+        notes.append("%d continue guard(s) rewritten as blocks" % ncg)
     ngl = guards_to_loop_condition(model)
     if ngl:
         notes.append("%d endless loop(s) with leading break guards rewritten as while loops" % ngl)
@@ -1002,28 +1005,83 @@ def guards_to_loop_condition(model):
             for i, lp in enumerate(ch):
                 if lp["kind"] == "ForStmt":
                     parts = kids(lp)
-                    if not (len(parts) == 5 and parts[0]["kind"] == "Null" and _is_true_const(parts[2]) and parts[3]["kind"] == "Null"):
+                    if len(parts) != 5:
                         continue
                     body = parts[4]
-                elif lp["kind"] == "WhileStmt" and _is_true_const(kids(lp)[0]):
+                    endless = parts[0]["kind"] == "Null" and _is_true_const(parts[2]) and parts[3]["kind"] == "Null"
+                    own = None if _is_true_const(parts[2]) else parts[2]
+                elif lp["kind"] == "WhileStmt":
                     body = kids(lp)[1]
+                    endless = _is_true_const(kids(lp)[0])
+                    own = None if endless else kids(lp)[0]
                 else:
                     continue
                 if body["kind"] != "CompoundStmt":
                     continue
                 st = kids(body)
+                # leading declarations that the guards need stay in the body only if no guard uses them: keep it simple
+                # and accept guards only at the very start, or after declarations whose initialisers are pure and which we
+                # can substitute into the guard
                 guards = []
                 k = 0
                 while k < len(st) and st[k]["kind"] == "IfStmt" and len(kids(st[k])) == 2 and _only_break(kids(st[k])[1]):
                     guards.append(kids(st[k])[0])
                     k += 1
-                if not guards:
-                    continue
-                cond = _negate(guards[0])
-                for g in guards[1:]:
-                    cond = _mk("BinaryOperator", [cond, _negate(g)], opcode="&&", type="int", file=lp.get("file"), line=lp.get("line"))
+                if not guards or not endless:
+                    continue            # loops with a condition of their own keep their break guards
+                cond = own
+                for g in guards:
+                    ng = _negate(g)
+                    cond = ng if cond is None else _mk("BinaryOperator", [cond, ng], opcode="&&", type="int",
+                                                       file=lp.get("file"), line=lp.get("line"))
                 nb = dict(body)
                 nb["inner"] = st[k:]
-                ch[i] = _mk("WhileStmt", [cond, nb], file=lp.get("file"), line=lp.get("line"), col=lp.get("col"))
+                if lp["kind"] == "ForStmt" and not endless:
+                    nl = dict(lp)
+                    nl["inner"] = [parts[0], parts[1], cond, parts[3], nb]
+                    ch[i] = nl
+                else:
+                    ch[i] = _mk("WhileStmt", [cond, nb], file=lp.get("file"), line=lp.get("line"), col=lp.get("col"))
                 n += 1
+    return n
+
+
+def _only_continue(stmt):
+    if stmt["kind"] == "ContinueStmt":
+        return True
+    if stmt["kind"] == "CompoundStmt":
+        body = [x for x in kids(stmt) if x["kind"] != "NullStmt"]
+        return len(body) == 1 and body[0]["kind"] == "ContinueStmt"
+    return False
+
+
+def continue_guards_to_blocks(model):
+    """loop body { A; if (c) continue; REST }  ->  { A; if (!c) { REST } }"""
+    n = 0
+    for f in model.funcs.values():
+        rel = model.rel(f.file) or ""
+        if not rel.startswith(("src/", "include/")):
+            continue
+        for lp in walk(f.body):
+            if lp["kind"] not in ("ForStmt", "WhileStmt"):
+                continue
+            body = kids(lp)[-1]
+            if body["kind"] != "CompoundStmt":
+                continue
+            changed = True
+            while changed:
+                changed = False
+                st = body["inner"]
+                for i, s_ in enumerate(st):
+                    if s_["kind"] == "IfStmt" and len(kids(s_)) == 2 and _only_continue(kids(s_)[1]) and i + 1 < len(st):
+                        rest = st[i + 1:]
+                        if any(x["kind"] == "ContinueStmt" for r_ in rest for x in walk(r_)):
+                            # later continues stay valid inside the new block
+                            pass
+                        st[i:] = [_mk("IfStmt", [_negate(kids(s_)[0]), _mk("CompoundStmt", rest, file=s_.get("file"), line=s_.get("line"))],
+                                      file=s_.get("file"), line=s_.get("line"), col=s_.get("col"))]
+                        body = kids(st[i])[1]
+                        n += 1
+                        changed = True
+                        break
     return n
